@@ -20,42 +20,45 @@ func init() { register("C11", checkC11) }
 // order is unobservable. Key: function + ranged expression.
 type mapRangeReview struct {
 	Func, Expr, Class, Reason string
+	// Carried: the types of the mutable objects from outside the loop that its body mentions
+	// (';'-separated): what an iteration may leave for the next was part of the review
+	Carried string
 }
 
 var c11MapRanges = []mapRangeReview{
-	{"Compiler.getDeviations", "‹map[string]struct{}›", "set", "the list of deviating module names of a model is set-valued (membership only)"},
-	{"Compiler.checkFeatures", "‹*compile.Compiler›.modules", "map+error", "fills the verified-feature map per feature; an error exit does not depend on which erroneous feature is met first"},
-	{"Compiler.getEnabledFeaturesForPrefix", "‹*compile.Compiler›.verifiedFeatures.features", "set", "the enabled-feature list of a module is set-valued"},
-	{"Compiler.checkIdentities", "‹*compile.Compiler›.modules", "map+error", "collects identities into a map keyed by qualified name"},
-	{"Compiler.checkIdentities", "‹map[string]parse.Node›", "set", "links derived identities under their base; identityref membership is by name, the order of the derived list is not part of the value space"},
-	{"Compiler.findMissingImportStatement", "‹*compile.Compiler›.modules", "error-only", "only picks which import statement an error message points at"},
-	{"Compiler.ExpandModules", "‹*compile.Compiler›.submodules", "map+error", "attaches each submodule to its module's submodule map"},
-	{"Compiler.ExpandModules", "‹*compile.Compiler›.modules", "per-module", "include verification/merging and grouping validation are per module and touch only that module's tree; the import graph is built into a sorter whose vertices are sorted"},
-	{"Compiler.ExpandModules", "‹*parse.Module›.GetSubmodules()", "per-module", "per submodule, touches only that submodule"},
-	{"Compiler.VerifyModuleIncludes", "‹map[string]parse.Node›", "sorted-later", "edges go into a topological sorter that orders its keys"},
-	{"convertSubmodules", "‹map[string]*parse.Module›", "map", "map to map"},
-	{"PatternArg.Parse", "patternReplacements", "commutative", "independent textual replacements of distinct character-class names (one entry today)"},
-	{"node.checkCardinality", "‹*parse.node›.card", "error-only", "first violated cell decides only the error text"},
-	{"node.checkCardinality", "‹map[parse.NodeType]int›", "error-only", "first invalid substatement decides only the error text"},
-	{"newNodeByType", "yangCardinality(‹parse.NodeType›)", "map", "map copy"},
-	{"newNodeByType", "‹*parse.Tree›.extCard(‹parse.NodeType›)", "map", "map merge; extension cells override RFC cells regardless of order"},
-	{"NewFakeNodeByType", "cardinalities[‹parse.NodeType›]", "map", "map copy"},
-	{"NewFakeNodeByType", "‹parse.NodeCardinality›(‹parse.NodeType›)", "map", "map merge"},
-	{"GetModulesAndSubmodules", "‹map[string]*parse.Tree›", "map", "map to map"},
-	{"TEnv.Copy", "‹*parse.TEnv›.syms", "map", "map copy"},
-	{"GEnv.Copy", "‹*parse.GEnv›.syms", "map", "map copy"},
-	{"tree.Paths", "‹*schema.tree›.children", "set", "path list of a schema tree is set-valued"},
-	{"NewModelSet", "‹map[string]schema.Model›", "map+error", "merges top-level children into a name-keyed map; a clash is an error for either order"},
-	{"node.Paths", "‹*schema.node›.children", "set", "path list is set-valued"},
-	{"genChildList", "‹map[string]schema.Node›", "set", "the children of a schema node are a set by design (name-keyed map); every consumer looks children up by name or treats the list as unordered"},
-	{"genSchemaChildList", "‹map[string]schema.Node›", "set", "same as genChildList"},
-	{"node.DefaultChildNames", "‹*schema.node›.defChildren", "set", "set of names"},
-	{"node.addParentToChildren", "‹*schema.node›.children", "per-element", "sets each child's parent pointer"},
-	{"checkNPContMustsInternal", "‹map[string]schema.Node›", "collect", "collects independent validation results"},
-	{"getUnconfiguredNPContainerChildren", "‹map[string]schema.Node›", "collect", "collects children by name"},
-	{"checkMandatory", "‹map[string]schema.Node›", "error-only", "which missing mandatory node is reported first"},
-	{"checkUnique", "‹map[string][]schema.xnode›", "collect", "collects one error per duplicated unique set; the error list is reported as a whole"},
-	{"JSONReader.unserializedChildren", "‹map[string]interface{}›", "set", "the members of a JSON object are unordered by definition; list and leaf-list order is taken from JSON arrays (the other arm), not from this map"},
+	{"Compiler.getDeviations", "‹map[string]struct{}›", "set", "the list of deviating module names of a model is set-valued (membership only)", "[]string"},
+	{"Compiler.checkFeatures", "‹*compile.Compiler›.modules", "map+error", "fills the verified-feature map per feature; an error exit does not depend on which erroneous feature is met first", "*compile.Compiler"},
+	{"Compiler.getEnabledFeaturesForPrefix", "‹*compile.Compiler›.verifiedFeatures.features", "set", "the enabled-feature list of a module is set-valued", "[]string"},
+	{"Compiler.checkIdentities", "‹*compile.Compiler›.modules", "map+error", "collects identities into a map keyed by qualified name", "*compile.Compiler;map[string]parse.Node"},
+	{"Compiler.checkIdentities", "‹map[string]parse.Node›", "set", "links derived identities under their base; identityref membership is by name, the order of the derived list is not part of the value space", "*compile.Compiler;map[string]parse.Node"},
+	{"Compiler.findMissingImportStatement", "‹*compile.Compiler›.modules", "error-only", "only picks which import statement an error message points at", ""},
+	{"Compiler.ExpandModules", "‹*compile.Compiler›.submodules", "map+error", "attaches each submodule to its module's submodule map", "*compile.Compiler"},
+	{"Compiler.ExpandModules", "‹*compile.Compiler›.modules", "per-module", "include verification/merging and grouping validation are per module and touch only that module's tree; the import graph is built into a sorter whose vertices are sorted", "*compile.Compiler;*tsort.Graph"},
+	{"Compiler.ExpandModules", "‹*parse.Module›.GetSubmodules()", "per-module", "per submodule, touches only that submodule", "*compile.Compiler;*parse.Module"},
+	{"Compiler.VerifyModuleIncludes", "‹map[string]parse.Node›", "sorted-later", "edges go into a topological sorter that orders its keys", "*tsort.Graph"},
+	{"convertSubmodules", "‹map[string]*parse.Module›", "map", "map to map", "map[string]schema.Model;map[string]schema.Submodule"},
+	{"PatternArg.Parse", "patternReplacements", "commutative", "independent textual replacements of distinct character-class names (one entry today)", ""},
+	{"node.checkCardinality", "‹*parse.node›.card", "error-only", "first violated cell decides only the error text", "map[parse.NodeType]int"},
+	{"node.checkCardinality", "‹map[parse.NodeType]int›", "error-only", "first invalid substatement decides only the error text", "*parse.node"},
+	{"newNodeByType", "yangCardinality(‹parse.NodeType›)", "map", "map copy", "map[parse.NodeType]parse.Cardinality"},
+	{"newNodeByType", "‹*parse.Tree›.extCard(‹parse.NodeType›)", "map", "map merge; extension cells override RFC cells regardless of order", "map[parse.NodeType]parse.Cardinality"},
+	{"NewFakeNodeByType", "cardinalities[‹parse.NodeType›]", "map", "map copy", "*parse.fakeNode"},
+	{"NewFakeNodeByType", "‹parse.NodeCardinality›(‹parse.NodeType›)", "map", "map merge", "*parse.fakeNode"},
+	{"GetModulesAndSubmodules", "‹map[string]*parse.Tree›", "map", "map to map", "map[string]*parse.Module"},
+	{"TEnv.Copy", "‹*parse.TEnv›.syms", "map", "map copy", "*parse.TEnv"},
+	{"GEnv.Copy", "‹*parse.GEnv›.syms", "map", "map copy", "*parse.GEnv"},
+	{"tree.Paths", "‹*schema.tree›.children", "set", "path list of a schema tree is set-valued", "[]string"},
+	{"NewModelSet", "‹map[string]schema.Model›", "map+error", "merges top-level children into a name-keyed map; a clash is an error for either order", "*schema.modelSet"},
+	{"node.Paths", "‹*schema.node›.children", "set", "path list is set-valued", "[]string"},
+	{"genChildList", "‹map[string]schema.Node›", "set", "the children of a schema node are a set by design (name-keyed map); every consumer looks children up by name or treats the list as unordered", "[]schema.Node"},
+	{"genSchemaChildList", "‹map[string]schema.Node›", "set", "same as genChildList", "[]schema.Node"},
+	{"node.DefaultChildNames", "‹*schema.node›.defChildren", "set", "set of names", "[]string"},
+	{"node.addParentToChildren", "‹*schema.node›.children", "per-element", "sets each child's parent pointer", "*schema.node"},
+	{"checkNPContMustsInternal", "‹map[string]schema.Node›", "collect", "collects independent validation results", "*[]*exec.Output;*[]error;*schema.xdatanode;*schema.yangValDebugContext"},
+	{"getUnconfiguredNPContainerChildren", "‹map[string]schema.Node›", "collect", "collects children by name", "[]schema.xnode;map[string]schema.Node"},
+	{"checkMandatory", "‹map[string]schema.Node›", "error-only", "which missing mandatory node is reported first", "[]error;map[string]schema.xnode"},
+	{"checkUnique", "‹map[string][]schema.xnode›", "collect", "collects one error per duplicated unique set; the error list is reported as a whole", "[][]xml.Name;[]error"},
+	{"JSONReader.unserializedChildren", "‹map[string]interface{}›", "set", "the members of a JSON object are unordered by definition; list and leaf-list order is taken from JSON arrays (the other arm), not from this map", "[]encoding.unserialized"},
 }
 
 // order-sensitive phases: must run over the sorted module order only
@@ -95,6 +98,48 @@ func checkC11(w *World, r *Report) {
 			panic(undecided{"checkFeatures: recording of the verdict"})
 		}
 		r.Check(ok, "R11.8", "checkFeatures records every feature", f.Pos(), "filteredFeatures.set(…) on every iteration of the feature loop", "a feature can be skipped ("+why+"): it is then missing from the verified set — treated as disabled — depending on which module the map iteration visits first")
+	})
+
+	r.Rule("R11.12", "a node's position is only ever applied to the text it was taken from: node.useTree — the tree of the module a node was copied into by `uses` — is read by UsesRoot alone (and set by Clone); error locations pair node.pos with node.tree. A position into the defining module's text applied to the using module's text slices out of range, and that run-time error is re-raised by Compiler.recover", 2)
+	r.guard("R11.12", func() {
+		useTree := w.Field("parse", "node", "useTree")
+		readers, writers := map[string]bool{}, map[string]bool{}
+		for _, f := range allFuncs(w.SSAPkg("parse")) {
+			if isTestFile(w, f.Pos()) {
+				continue
+			}
+			for _, b := range f.Blocks {
+				for _, in := range b.Instrs {
+					fa, ok := in.(*ssa.FieldAddr)
+					if !ok || !isFieldAddrOf(fa, useTree) {
+						continue
+					}
+					for _, ref := range *fa.Referrers() {
+						switch x := ref.(type) {
+						case *ssa.Store:
+							if x.Addr == ssa.Value(fa) {
+								writers[nm(w.OwnerChain(f)[len(w.OwnerChain(f))-1])] = true
+								continue
+							}
+							readers[funcKey(f)] = true
+						default:
+							readers[nm(w.OwnerChain(f)[len(w.OwnerChain(f))-1])] = true
+						}
+					}
+				}
+			}
+		}
+		var rs, ws []string
+		for k := range readers {
+			rs = append(rs, k)
+		}
+		for k := range writers {
+			ws = append(ws, k)
+		}
+		sort.Strings(rs)
+		sort.Strings(ws)
+		r.Check(strings.Join(rs, ",") == "UsesRoot", "R11.12", "readers of node.useTree", token.NoPos, strings.Join(rs, ","), "node.useTree is read by {"+strings.Join(rs, ",")+"}, not by UsesRoot alone: something other than re-homing of references depends on the using module — e.g. an error location built from the using module's text and the defining module's offset")
+		r.Check(strings.Join(ws, ",") == "Clone", "R11.12", "writers of node.useTree", token.NoPos, strings.Join(ws, ","), "node.useTree is written by {"+strings.Join(ws, ",")+"}, not by Clone alone")
 	})
 
 	r.Rule("R11.9", "the outcome does not depend on what was compiled or parsed before: package-level state of parse/, compile/, schema/ and data/ is never written after initialisation (no memo, pool or table filled at run time), apart from the reviewed debug switch and built-in type environment", 2)
@@ -163,8 +208,9 @@ func c11MapOrder(w *World, r *Report) {
 				expr := types.ExprString(rs.X)
 				norm := localFreeExpr(p, rs.X)
 				c := fmt.Sprintf("%s: range %s", name, expr)
+				carried := carriedInto(p, fd, rs)
 				if os.Getenv("YV_DUMP_MAPRANGES") != "" {
-					fmt.Printf("MAPRANGE\t%s\t%s\t%s\n", name, expr, norm)
+					fmt.Printf("MAPRANGE\t%s\t%s\t%s\t%s\n", name, expr, norm, strings.Join(carried, ";"))
 				}
 				// the table names the function (or the function a helper was split off) and
 				// the ranged expression with locals replaced by their types
@@ -209,12 +255,55 @@ func c11MapOrder(w *World, r *Report) {
 						return true
 					}
 				}
+				// nothing new is carried from one iteration to the next
+				okCarried := map[string]bool{}
+				for _, t := range strings.Split(rev.Carried, ";") {
+					okCarried[t] = true
+				}
+				for _, t := range carried {
+					if !okCarried[t] {
+						r.Fail("R11.1", c, rs.Pos(), "reviewed as '"+rev.Class+"', but the loop body now works on an object of type "+t+" that lives outside the loop: what one iteration leaves there (a memo, a set of visited names) the next one sees, in Go's random map order")
+						return true
+					}
+				}
 				seen[name+"|"+expr] = true
 				r.Reviewed("R11.1", c, rs.Pos(), rev.Class+": "+rev.Reason)
 				return true
 			})
 		}
 	}
+}
+
+// carriedInto: the types of the mutable objects (maps, slices, pointers,
+// channels, functions) that live outside the loop — parameters, the receiver,
+// locals declared before it — and are mentioned in its body: what one
+// iteration can leave behind for the next.
+func carriedInto(p *packages.Package, fd *ast.FuncDecl, rs *ast.RangeStmt) []string {
+	set := map[string]bool{}
+	ast.Inspect(rs.Body, func(x ast.Node) bool {
+		id, ok := x.(*ast.Ident)
+		if !ok {
+			return true
+		}
+		v, ok := p.TypesInfo.Uses[id].(*types.Var)
+		if !ok || v.IsField() || v.Parent() == nil || v.Pkg() == nil || v.Parent() == v.Pkg().Scope() {
+			return true
+		}
+		if rs.Pos() <= v.Pos() && v.Pos() <= rs.End() {
+			return true // the loop's own variables and what is declared inside
+		}
+		switch v.Type().Underlying().(type) {
+		case *types.Map, *types.Slice, *types.Pointer, *types.Chan, *types.Signature:
+			set[types.TypeString(v.Type(), func(pk *types.Package) string { return pk.Name() })] = true
+		}
+		return true
+	})
+	var out []string
+	for k := range set {
+		out = append(out, k)
+	}
+	sort.Strings(out)
+	return out
 }
 
 // outerAppend returns the name of a slice declared outside the loop that the
